@@ -7,6 +7,21 @@ SUITES = {
     "coinswap": dict(quick_ops=4000, thorough_ops=40000, driver="coinswap", accept_floor=10),
 }
 
+import os, re
+_LEAN = os.path.join(os.path.dirname(os.path.dirname(os.path.dirname(os.path.abspath(__file__)))), "lean", "CantoVerif")
+
+def bridge_theorems(module_file, namespace):
+    """names of all theorems in a Bridge file (the regenerated-fact obligations)"""
+    try:
+        src = open(os.path.join(_LEAN, module_file)).read()
+    except OSError:
+        return []
+    return [namespace + "." + m for m in re.findall(r"^theorem\s+([\w.']+)", src, re.M)]
+
+_CS_BRIDGE_MODULES = ["CantoVerif.Bridge.CoinswapFormulas", "CantoVerif.Bridge.CoinswapFacts"]
+_CS_BRIDGE = (bridge_theorems("Bridge/CoinswapFormulas.lean", "CV.Bridge.Coinswap")
+              + bridge_theorems("Bridge/CoinswapFacts.lean", "CV.Bridge.CoinswapFacts"))
+
 _CS_ASSUME = ["EnvOK: GetReservePoolAddr has no collisions on the denominations in play and never yields the module or fee-collector account",
               "signers are not pool escrow addresses",
               "SDK bank keeper behaves as Bank.applyAll (validated on every operation of the run)"]
@@ -14,34 +29,34 @@ _CS_ASSUME = ["EnvOK: GetReservePoolAddr has no collisions on the denominations 
 PROPS = {
     "C01": dict(
         suite="coinswap",
-        modules=["CantoVerif.Props.C01"],
+        modules=["CantoVerif.Props.C01"] + _CS_BRIDGE_MODULES,
         theorems=[
             "CV.Coinswap.k_step", "CV.Coinswap.k_step_monitor", "CV.Coinswap.k_history", "CV.Coinswap.wf_step",
             "CV.Coinswap.k_swap", "CV.Coinswap.k_add", "CV.Coinswap.k_remove", "CV.Coinswap.k_send",
             "CV.Coinswap.trade_k", "CV.Coinswap.remove_le_prorata", "CV.Coinswap.add_then_remove_le",
             "CV.Coinswap.roundtrip_le", "CV.Arith.sell_k", "CV.Arith.buy_k", "CV.Arith.add_k", "CV.Arith.remove_k",
             "CV.Arith.k_trans", "CV.Bank.applyAll_flow",
-        ],
+        ] + _CS_BRIDGE,
         comps={"outcome", "bank", "pools"},
         assumptions=_CS_ASSUME,
     ),
     "C02": dict(
-        suite="coinswap", modules=["CantoVerif.Props.C02"],
+        suite="coinswap", modules=["CantoVerif.Props.C02"] + _CS_BRIDGE_MODULES,
         theorems=["CV.Coinswap.rejected_unchanged", "CV.Coinswap.swap_conserves", "CV.Coinswap.remove_conserves",
                   "CV.Coinswap.add_conserves", "CV.group_flow", "CV.within_conserves", "CV.Bank.applyAll_flow",
-                  "CV.deliver_rejected_unchanged", "CV.Coinswap.poolTax_ok"],
+                  "CV.deliver_rejected_unchanged", "CV.Coinswap.poolTax_ok"] + _CS_BRIDGE,
         comps={"outcome", "bank", "pools"}, assumptions=_CS_ASSUME),
     "C08": dict(
-        suite="coinswap", modules=["CantoVerif.Props.C08"],
+        suite="coinswap", modules=["CantoVerif.Props.C08"] + _CS_BRIDGE_MODULES,
         theorems=["CV.Coinswap.deadline_respected", "CV.Coinswap.notPast_of_not_pastDeadline", "CV.Coinswap.sell_exact_in_min_out",
                   "CV.Coinswap.buy_exact_out_max_in", "CV.Coinswap.add_bounds", "CV.Coinswap.remove_bounds",
                   "CV.Coinswap.sell_bound_tight", "CV.Coinswap.inputPrice_ok", "CV.Coinswap.outputPrice_ok",
-                  "CV.Coinswap.addLiveAmounts_ok", "CV.Coinswap.removeAmounts_ok"],
+                  "CV.Coinswap.addLiveAmounts_ok", "CV.Coinswap.removeAmounts_ok"] + _CS_BRIDGE,
         comps={"outcome", "bank", "resp"}, assumptions=_CS_ASSUME),
     "C09": dict(
-        suite="coinswap", modules=["CantoVerif.Props.C09"],
+        suite="coinswap", modules=["CantoVerif.Props.C09"] + _CS_BRIDGE_MODULES,
         theorems=["CV.Coinswap.swap_caps", "CV.Coinswap.no_module_recipient", "CV.Coinswap.blocked_any_form",
-                  "CV.Coinswap.add_caps", "CV.Coinswap.pools_against_standard", "CV.Coinswap.wf_step", "CV.Coinswap.quoteLeg_fst"],
+                  "CV.Coinswap.add_caps", "CV.Coinswap.pools_against_standard", "CV.Coinswap.wf_step", "CV.Coinswap.quoteLeg_fst"] + _CS_BRIDGE,
         comps={"outcome", "bank"}, assumptions=_CS_ASSUME),
 }
 
